@@ -494,7 +494,7 @@ STREAM_MUTANTS = [
          edits=[(MARSHAL, "            command_code=command.commandCode,\n", "            command_code=None,\n")]),
     dict(id="c09-flag-command-direction", props=["C09"], rule="S2", names="parameter_encryption",
          edits=[(MARSHAL, "            parameter_encryption=is_parameter_encryption(command, for_response=True)\n            or None,", "            parameter_encryption=is_parameter_encryption(command, for_response=False)\n            or None,")]),
-    dict(id="c09-swap-bits", props=["C09", "C01"], rule={"C09": "S3", "C01": "F"},
+    dict(id="c09-swap-bits", props=["C09", "C01"], rule="S3",
          edits=[(MARSHAL, """        return any(
             authorizationArea.sessionAttributes.encrypt
             for authorizationArea in authorizationArea
@@ -771,7 +771,7 @@ WARN_MUTANTS = [
          edits=[(CONSTR, "            if abort_on_error:\n                raise error\n            yield WarningEvent(error=error)\n", "            if abort_on_error or size_max > 0xFFFF:\n                raise error\n            yield WarningEvent(error=error)\n")]),
     dict(id="c08-skip-amount", props=["C08"], rule="Y4", names="padding skip",
          edits=[(CONSTR, "        yield WarningEvent(error=error)\n\n        yield from consume_bytes(self.size_max - self.size_already)", "        yield WarningEvent(error=error)\n\n        yield from consume_bytes(self.size_max - self.size_already - 1)")]),
-    dict(id="c08-recovery-no-warning", props=["C08", "C07"], rule={"C08": "Y2", "C07": "NI-3"}, names="recovery path",
+    dict(id="c08-recovery-no-warning", props=["C08", "C07"], rule={"C08": "Y2", "C07": "NI-3"}, names={"C08": "recovery path", "C07": "warn branch"},
          edits=[(MARSHAL, "            if abort_on_error or error.constraint != array_size_constraint:\n                raise error\n            yield WarningEvent(error=error)\n            return", "            if abort_on_error or error.constraint != array_size_constraint:\n                raise error\n            return")]),
 ]
 MUTANTS += WARN_MUTANTS
